@@ -88,9 +88,9 @@ def reference(wire, method='GET'):
     d = dec(rest); return ('error',) if d is None else ('ok', d, len(wire))
 
 
-def run(wire, cuts, method='GET'):
+def run(wire, cuts, method='GET', ignore_length=False):
     conn = SegConnection(wire, cuts)
-    st = Stream(conn)
+    st = Stream(conn, ignore_length=ignore_length)
     notified = []
     st.data_event_dispatcher.add_read_listener(notified.append)
     req = Request('http://example.com/'); req.method = method
@@ -113,6 +113,10 @@ def streams():
         yield b'HTTP/1.1 200 OK\r\nTransfer-Encoding: chunked\r\n\r\n' + ch + b'0\r\nX-Trailer: 1\r\n\r\n', 'GET'
         yield b'HTTP/1.1 200 OK\r\nTransfer-Encoding: Chunked\r\nContent-Length: 3\r\n\r\n' + ch + b'0\r\n\r\n', 'GET'
         yield b'HTTP/1.1 200 OK\r\nContent-Encoding: gzip\r\nContent-Length: %d\r\n\r\n' % len(gzip.compress(b)) + gzip.compress(b), 'GET'
+    # header blocks with folded continuation lines, one of them holding nothing but white space: a legal continuation, NOT the end of the header block
+    yield b'HTTP/1.1 200 OK\r\nContent-Length: 5\r\nX-Comment: text\r\n \r\nServer: legacy/0.9\r\n\r\nhello', 'GET'
+    yield b'HTTP/1.1 200 OK\r\nX-Comment: text\r\n\t\r\nContent-Length: 5\r\n\r\nhelloSURPLUS', 'GET'
+    yield b'HTTP/1.1 200 OK\nX-A: b\n \nTransfer-Encoding: chunked\n\n5\r\nhello\r\n0\r\n\r\n', 'GET'
     yield b'HTTP/1.1 304 Not Modified\r\nContent-Length: 5\r\n\r\n', 'GET'
     yield b'HTTP/1.1 200 OK\r\nContent-Length: 10\r\n\r\n', 'HEAD'
     yield b'HTTP/1.1 204 No Content\r\nTransfer-Encoding: chunked\r\n\r\n', 'GET'
@@ -145,6 +149,18 @@ def main():
             # (Surplus arriving in a later segment cannot be known when the body completes: outside the clause.)
             if b'SURPLUS' in wire and len(wire) > ref[2] and ref[2] not in cuts and ref[1] and not closed and consumed <= ref[2]:
                 bad.append({'stream': repr(wire[:70]), 'cuts': cuts[:5], 'problem': 'surplus bytes sent with the tail of a length-delimited body were left unread in a connection that stays open (they will be parsed as the next response)'})
+        # the --ignore-length option replaces ONLY the Content-Length rule (read until close instead): chunked framing, content coding and the no-body cases are as before
+        if ref[0] == 'ok' and b'chunked' in wire.lower().split(b'\r\n\r\n')[0].split(b'\n\n')[0]:
+            for cuts in [(), (1,), tuple(range(1, L))] + [c for c in segs[1:40:7]]:
+                n += 1
+                got = run(wire, cuts, method, ignore_length=True)
+                if got[0] == 'error': bad.append({'stream': repr(wire[:70]), 'cuts': cuts[:5], 'problem': 'with ignore_length: well-formed chunked response raised %s' % got[1]})
+                elif got[1] != ref[1]: bad.append({'stream': repr(wire[:70]), 'cuts': cuts[:5], 'problem': 'with ignore_length: chunked body %r..., reference %r... (the chunk framing was not removed)' % (got[1][:30], ref[1][:30])})
+            if ref[1]:
+                for cut in range(len(wire) - len(ref[1]) // 2, ref[2], 3):
+                    n += 1
+                    got = run(wire[:cut], (), 'GET', ignore_length=True)
+                    if got[0] != 'error': bad.append({'stream': repr(wire[:50]), 'cuts': ('truncated at', cut), 'problem': 'with ignore_length: chunked message cut short reported as a successful download of %d bytes' % len(got[1])}); break
         # truncations of well-formed framed streams must be errors
         if ref[0] == 'ok' and (b'Content-Length' in wire or b'chunked' in wire.lower()) and ref[1]:
             for cut in range(len(wire) - len(ref[1]) // 2, ref[2]):
